@@ -300,6 +300,26 @@ def run (regs : List TA) : List Op → List TA × List (Option Err)
     | .ok regs' => let (r, log) := run regs' ops; (r, none :: log)
     | .error e => let (r, log) := run (afterError regs op e) ops; (r, some e :: log)
 
+/-- ghost semantics of a history: which trees each array *should* hold, in order, if every operation did what its
+    name says (`add` appends, `ins` inserts like a Python list, `update`/`extend`/`+=` concatenate the source behind
+    the destination, `+` makes a new collection holding both); operations naming a missing register do nothing -/
+def ghostStep (g : List (List TRec)) : Op → List (List TRec)
+  | .new _ _ => g ++ [[]]
+  | .add d t => match g[d]? with
+    | some ts => g.set d (ts ++ [t])
+    | none => g
+  | .ins d i t => match g[d]? with
+    | some ts => g.set d (pyInsert i t ts)
+    | none => g
+  | .upd d s | .ext d s | .iadd d s => match g[d]?, g[s]? with
+    | some x, some y => g.set d (x ++ y)
+    | _, _ => g
+  | .plus a b => match g[a]?, g[b]? with
+    | some x, some y => g ++ [x ++ y]
+    | _, _ => g
+
+def ghostRun (ops : List Op) : List (List TRec) := ops.foldl ghostStep []
+
 /-! ## per-tree queries and summaries -/
 
 /-- which splits of a tree enter its credibility score (`calculate_log_product_of_split_supports`, default flags) -/
